@@ -2,7 +2,8 @@
 (***************************************************************************)
 (* Design-level check of RegAlloc.tla on a small register machine.         *)
 (*                                                                         *)
-(* Programs: sequences of <= MaxLen instructions over the virtual          *)
+(* Programs: sequences of <= MaxLen instructions (all of them) plus        *)
+(* RandCount random programs of each length in RandLens, over the virtual  *)
 (* registers 1..NV; values are integers modulo 3.                          *)
 (*   <<"const", d, c>>     d := c                                          *)
 (*   <<"mov", d, s>>       d := s             (the MOVE of the allocator)  *)
@@ -37,23 +38,26 @@ CONSTANTS MaxLen,      \* maximal program length for the exhaustive part
           Kinds,       \* instruction kinds enabled
           Rule,        \* see above
           Filter,      \* TRUE: explore only allocations the rule accepts
-          RandLen,     \* length of the randomly drawn programs (0 = none)
-          RandCount    \* how many of them
+          RandLens,    \* lengths of the randomly drawn programs ({} = none)
+          RandKinds,   \* their instruction kinds
+          RandCount    \* how many per length (drawn with TLC's seeded generator: -seed fixes them)
 
 VRegs == 1..NV
 PRegs == 0..(NP - 1)
 Vals  == 0..2
 Pl(x, y) == (x + y) % 3
 
-Instrs(n) ==
+InstrsOf(K, n) ==
     LET T == 1..(n + 1) IN
-      (IF "const" \in Kinds THEN { <<"const", d, c>> : d \in VRegs, c \in {0, 1} } ELSE {})
- \cup (IF "mov" \in Kinds THEN { <<"mov", x[1], x[2]>> : x \in { y \in VRegs \X VRegs : y[1] # y[2] } } ELSE {})
- \cup (IF "inc" \in Kinds THEN { <<"inc", d, s>> : d \in VRegs, s \in VRegs } ELSE {})
- \cup (IF "add" \in Kinds THEN { <<"add", x[1], x[2], x[3]>> : x \in { y \in VRegs \X VRegs \X VRegs : y[2] < y[3] } } ELSE {})
- \cup (IF "out" \in Kinds THEN { <<"out", s>> : s \in VRegs } ELSE {})
- \cup (IF "jnz" \in Kinds THEN { <<"jnz", s, t>> : s \in VRegs, t \in T } ELSE {})
- \cup (IF "jmp" \in Kinds THEN { <<"jmp", t>> : t \in T } ELSE {})
+      (IF "const" \in K THEN { <<"const", d, c>> : d \in VRegs, c \in {0, 1} } ELSE {})
+ \cup (IF "mov" \in K THEN { <<"mov", x[1], x[2]>> : x \in { y \in VRegs \X VRegs : y[1] # y[2] } } ELSE {})
+ \cup (IF "inc" \in K THEN { <<"inc", d, s>> : d \in VRegs, s \in VRegs } ELSE {})
+ \cup (IF "add" \in K THEN { <<"add", x[1], x[2], x[3]>> : x \in { y \in VRegs \X VRegs \X VRegs : y[2] < y[3] } } ELSE {})
+ \cup (IF "out" \in K THEN { <<"out", s>> : s \in VRegs } ELSE {})
+ \cup (IF "jnz" \in K THEN { <<"jnz", s, t>> : s \in VRegs, t \in T } ELSE {})
+ \cup (IF "jmp" \in K THEN { <<"jmp", t>> : t \in T } ELSE {})
+
+Instrs(n) == InstrsOf(Kinds, n)
 
 Progs == UNION { [1..n -> Instrs(n)] : n \in 1..MaxLen }
 
@@ -97,8 +101,7 @@ VARIABLES prog,   \* the program
 vars == <<prog, lin, asg, nc, pc, V, P, bad>>
 
 RandProgs ==
-    IF RandLen = 0 THEN {}
-    ELSE { [i \in 1..RandLen |-> RandomElement(Instrs(RandLen))] : j \in 1..RandCount }
+    UNION { { [i \in 1..n |-> RandomElement(InstrsOf(RandKinds, n))] : j \in 1..RandCount } : n \in RandLens }
 
 Init ==
     /\ prog \in Progs \cup RandProgs
@@ -124,26 +127,31 @@ Write(d, x, y, npc) ==
     /\ pc' = npc
     /\ bad' = bad
 
-StepConst == LET ins == prog[pc] IN ins[1] = "const" /\ Write(ins[2], ins[3], ins[3], pc + 1)
-StepMov   == LET ins == prog[pc] IN ins[1] = "mov" /\ Write(ins[2], RV(ins[3]), RP(ins[3]), pc + 1)
-StepInc   == LET ins == prog[pc] IN ins[1] = "inc" /\ Write(ins[2], Pl(RV(ins[3]), 1), Pl(RP(ins[3]), 1), pc + 1)
-StepAdd   == LET ins == prog[pc] IN ins[1] = "add" /\
+Live == ~Halted /\ ~bad                       \* a run stops at the exit or at the first difference
+Keep == UNCHANGED <<prog, lin, asg, nc>>
+
+StepConst == Live /\ LET ins == prog[pc] IN
+                 Live /\ Keep /\ ins[1] = "const" /\ Write(ins[2], ins[3], ins[3], pc + 1)
+StepMov   == Live /\ LET ins == prog[pc] IN
+                 Live /\ Keep /\ ins[1] = "mov" /\ Write(ins[2], RV(ins[3]), RP(ins[3]), pc + 1)
+StepInc   == Live /\ LET ins == prog[pc] IN
+                 Live /\ Keep /\ ins[1] = "inc" /\ Write(ins[2], Pl(RV(ins[3]), 1), Pl(RP(ins[3]), 1), pc + 1)
+StepAdd   == Live /\ LET ins == prog[pc] IN
+                 Live /\ Keep /\ ins[1] = "add" /\
                  Write(ins[2], Pl(RV(ins[3]), RV(ins[4])), Pl(RP(ins[3]), RP(ins[4])), pc + 1)
-StepOut   == LET ins == prog[pc] IN
-                 /\ ins[1] = "out"
+StepOut   == Live /\ LET ins == prog[pc] IN
+                 /\ Live /\ Keep /\ ins[1] = "out"
                  /\ bad' = (RV(ins[2]) # RP(ins[2]))
                  /\ pc' = pc + 1 /\ UNCHANGED <<V, P>>
-StepJnz   == LET ins == prog[pc] IN
-                 /\ ins[1] = "jnz"
+StepJnz   == Live /\ LET ins == prog[pc] IN
+                 /\ Live /\ Keep /\ ins[1] = "jnz"
                  /\ bad' = ((RV(ins[2]) # 0) # (RP(ins[2]) # 0))
                  /\ pc' = (IF RV(ins[2]) # 0 THEN ins[3] ELSE pc + 1)
                  /\ UNCHANGED <<V, P>>
-StepJmp   == LET ins == prog[pc] IN ins[1] = "jmp" /\ pc' = ins[2] /\ UNCHANGED <<V, P, bad>>
+StepJmp   == Live /\ LET ins == prog[pc] IN
+                 Live /\ Keep /\ ins[1] = "jmp" /\ pc' = ins[2] /\ UNCHANGED <<V, P, bad>>
 
-Next ==
-    /\ ~Halted /\ ~bad
-    /\ StepConst \/ StepMov \/ StepInc \/ StepAdd \/ StepOut \/ StepJnz \/ StepJmp
-    /\ UNCHANGED <<prog, lin, asg, nc>>
+Next == StepConst \/ StepMov \/ StepInc \/ StepAdd \/ StepOut \/ StepJnz \/ StepJmp
 
 Spec == Init /\ [][Next]_vars
 
